@@ -406,7 +406,10 @@ def execute(ctx, op, seed_of=None):
             return None
         ev, es = recorded
         s.stop_training = False                 # (as a user does before training on; the abstract flag is SetStop's)
-        return [[int(e) for e in ev.epochs], -1 if es.last_epoch is None else int(es.last_epoch), len(ev)]
+        # what the evaluator recorded is part of what the seeded run produced (statistics drawn while training)
+        rec = [float(v[nm]) if not isinstance(v[nm], dict) else [float(v[nm]["mean"]), float(v[nm]["variance"])]
+               for _, v in ev.past_values for nm in sorted(v)]
+        return [[int(e) for e in ev.epochs], -1 if es.last_epoch is None else int(es.last_epoch), len(ev), rec]
     raise common.MachineryError("unknown operation %r" % (op,))
 
 
